@@ -11,9 +11,34 @@ def visOf (d : EnumDef) : DiscVis := if d.discVis = 0 then .inherit else if d.di
 theorem disc_variants (d : EnumDef) (n : Option Bytes) (vis : DiscVis) :
     (genDiscriminants d n vis).variants.map (·.1) = d.variants.map (·.ident) ∧
     (genDiscriminants d n vis).variants.map (·.2) = d.variants.map (·.discr) ∧
-    (genDiscriminants d n vis).repr = d.repr ∧
+    (genDiscriminants d n vis).asEnum.reprHints = d.reprHints ∧
+    (genDiscriminants d n vis).asEnum.repr = d.repr ∧
     (genDiscriminants d n vis).variants.length = d.variants.length := by
-  simp [genDiscriminants, Function.comp_def]
+  have hh : (genDiscriminants d n vis).asEnum.reprHints = d.reprHints := by
+    unfold genDiscriminants DiscEnum.asEnum EnumDef.reprHints enumRepr
+    by_cases he : d.reprAttrs.isEmpty = true
+    · have : d.reprAttrs = [] := by simpa using he
+      simp [this]
+    · simp [he]
+  refine ⟨?_, ?_, hh, ?_, ?_⟩
+  · simp [genDiscriminants, Function.comp_def]
+  · simp [genDiscriminants, Function.comp_def]
+  · unfold EnumDef.repr; rw [hh]
+  · simp [genDiscriminants]
+
+/-- the generated enum carries a `#[repr(..)]` attribute iff the source enum has one, holding the hints of ALL of them
+    in source order (`#[repr(u8)] #[repr(align(4))]` is mirrored as `#[repr(u8, align(4))]`) -/
+theorem disc_repr_attr (d : EnumDef) (n : Option Bytes) (vis : DiscVis) :
+    (genDiscriminants d n vis).repr = if d.reprAttrs = [] then none else some d.reprHints := by
+  unfold genDiscriminants enumRepr EnumDef.reprHints
+  by_cases he : d.reprAttrs = [] <;> simp [he]
+
+/-- F9 regression witness: the pinned revision copied only the last attribute: `#[repr(u8)] #[repr(align(4))]` was
+    mirrored as `#[repr(align(4))]`, an enum whose discriminant type is no longer `u8` -/
+theorem pinned_disc_repr_wrong :
+    enumReprPinned { reprAttrs := [[.int .u8], [.align 4]] } = some [.align 4] ∧
+    intHint [ReprHint.align 4] = none ∧
+    (EnumDef.repr { reprAttrs := [[.int .u8], [.align 4]] }) = some .u8 := by decide
 
 /-- the discriminant rule only looks at the explicit values -/
 theorem discrFrom_congr (f : Variant → Variant) (hf : ∀ v, (f v).discr = v.discr) (prev : Option Int)
